@@ -99,6 +99,7 @@ type env struct {
 	released map[int]bool
 	relAll   bool
 	ackOpen  bool
+	lifeGen  int
 	cid      int
 	cancel   context.CancelFunc
 	adapters []*adapter
@@ -460,6 +461,10 @@ func (e *env) call(api string, args string) int {
 }
 func (e *env) ret(cid int, api string, res string) {
 	rt.Log("R", fmt.Sprint(cid), api+" "+res)
+	switch api {
+	case "restart", "resume", "stop", "waitandstop", "bind", "cancelctx":
+		e.lifeGen++ // the error channel may have been replaced: the Errs() consumer looks again
+	}
 }
 
 func (e *env) waitJob(k int) jobHandle {
@@ -645,6 +650,8 @@ func (e *env) exec(op Op) {
 		e.ret(c, "bind", fmt.Sprintf("%d %s", len(e.qs)-1, w.Status()))
 	case "status":
 		c := e.call("status", "")
+		_ = w.Context() // introspection: must be free to run next to any control call
+		_ = w.Errs()
 		e.ret(c, "status", fmt.Sprintf("%s %v %v %v", w.Status(), w.IsRunning(), w.IsPaused(), w.IsStopped()))
 	case "counts":
 		c := e.call("counts", "")
@@ -801,19 +808,20 @@ func runPhase(p *Program, cfg rt.Config, shared *[]*adapter, first bool) *rt.Res
 				x := x
 				rt.GoRole("errs", func() {
 					for {
+						// Errs() takes a lock of the worker: call it from this goroutine only, never from a
+						// condition evaluated by the scheduler
+						gen := x.lifeGen
 						ch := x.w.Errs()
-						if ch == nil {
-							rt.WaitUntil("errs-nil", func() bool { return x.w.Errs() != nil })
-							continue
-						}
-						for {
-							v, ok := rt.Recv2(-1, ch)
-							if !ok {
-								break
+						if ch != nil {
+							for {
+								v, ok := rt.Recv2(-1, ch)
+								if !ok {
+									break
+								}
+								rt.Log("O", "err", sesc(v.Error()))
 							}
-							rt.Log("O", "err", sesc(v.Error()))
 						}
-						rt.WaitUntil("errs-new", func() bool { c2 := x.w.Errs(); return c2 != nil && c2 != ch })
+						rt.WaitUntil("errs-new", func() bool { return x.lifeGen != gen })
 					}
 				})
 			}
